@@ -44,7 +44,12 @@ func c09(p *core.Prog, r *core.Report) {
 	c09End(p, r)
 	c09Admission(p, r)
 	c09Pending(p, r)
+	c08PostRemapIDs(p, r, "C09-R3")
 	c09Forget(p, r)
+	// a frame of a call that has ended is dropped before anything is reported for it (shared with C10-R3)
+	r.Alias("C10-R3", "C09-R5")
+	c10Relay(p, r)
+	r.Alias("C10-R3", "")
 	c09Reports(p, r)
 }
 
